@@ -762,3 +762,216 @@ Proof.
     apply Hin in Hb. rewrite Forall_forall in Hall. apply Hall, Hb.
   - rewrite Hcn. apply cat_names_length.
 Qed.
+
+(* ================================================================================================ *)
+(* instance-level statements                                                                       *)
+(* ================================================================================================ *)
+
+Lemma Forall2_map_fun {T U} (P : T -> U -> Prop) (f : T -> U) l :
+  (forall x, In x l -> P x (f x)) -> Forall2 P l (map f l).
+Proof.
+  induction l as [|x l IH]; intros H; simpl; constructor.
+  - apply H. left. reflexivity.
+  - apply IH. intros y Hy. apply H. right. assumption.
+Qed.
+
+Lemma fo_ballots_eq src nic st rst ci :
+  from_ordinal src nic st rst = Ok ci ->
+  fo_ballots nic st rst (os_multiplicity src) =
+  map (fun om => pad (ci_num_categories ci) (raw_pref nic st rst (fst om))) (os_multiplicity src).
+Proof.
+  intros H. apply from_ordinal_ok in H. cbv zeta in H.
+  destruct H as (k & _ & _ & Hbs & _ & _ & Hnc & _).
+  rewrite Hbs, Hnc, fo_raw_map, map_map. reflexivity.
+Qed.
+
+Lemma fo_partition_lemma src nic st rst ci :
+  from_ordinal src nic st rst = Ok ci ->
+  truthy nic || truthy st || truthy rst = true ->
+  let bs := fo_ballots nic st rst (os_multiplicity src) in
+  length bs = length (os_multiplicity src) /\
+  (forall b, In b (ci_preferences ci) <-> In b bs) /\
+  Forall2 (fun om b => concat b = concat (fst om) /\
+                       exists groups : list (list (list N)),
+                         concat groups = fst om /\ b = map (@concat N) groups)
+          (os_multiplicity src) bs.
+Proof.
+  intros H Ht bs. pose proof (fo_conserve_lemma _ _ _ _ _ H) as Hc. cbv zeta in Hc. fold bs in Hc.
+  destruct Hc as (Hlen & _ & _ & Hin & _). splits; auto.
+  unfold bs. rewrite (fo_ballots_eq _ _ _ _ _ H). apply Forall2_map_fun. intros [o m] _. simpl.
+  assert (HP : Partition o (pad (ci_num_categories ci) (raw_pref nic st rst o))).
+  { apply Partition_pad, raw_pref_partition, Ht. }
+  split; [apply Partition_flat, HP | exact HP].
+Qed.
+
+Lemma fo_rules_lemma src nic st rst ci :
+  from_ordinal src nic st rst = Ok ci ->
+  let k := ci_num_categories ci in
+  Forall2 (fun om b => exists r, b = r ++ repeat [] (N.to_nat k - length r) /\
+             match nic, st, rst with
+             | None, Some (t :: ts), None => size_rule (t :: ts) (fst om) r
+             | Some (n :: ns), None, None => classes_rule (n :: ns) (fst om) r
+             | None, None, Some (tab :: tabs) =>
+                 size_rule (rel_sizes (tab :: tabs) (fst om)) (fst om) r
+             | _, _, _ => r = []     (* an EMPTY truncator list: no category at all *)
+             end)
+          (os_multiplicity src) (fo_ballots nic st rst (os_multiplicity src)).
+Proof.
+  intros H k. rewrite (fo_ballots_eq _ _ _ _ _ H). apply Forall2_map_fun. intros [o m] _. cbn [fst].
+  exists (raw_pref nic st rst o). split; [reflexivity|].
+  apply from_ordinal_ok in H. cbv zeta in H. destruct H as (_ & _ & Hc & _).
+  unfold raw_pref.
+  destruct nic as [[|n ns]|], st as [[|t ts]|], rst as [[|tab tabs]|]; simpl in Hc; try discriminate;
+    cbn [truthy olist]; cbv iota;
+    first [reflexivity | exact (size_rule_holds _ _) | exact (classes_rule_holds _ _)].
+Qed.
+
+(* ---- guards ---- *)
+Lemma fo_guard_too_many src nic st rst :
+  (count_none nic st rst < 2)%nat -> from_ordinal src nic st rst = Err ValueErr.
+Proof. intros H. unfold from_ordinal. apply Nat.ltb_lt in H. rewrite H. reflexivity. Qed.
+
+Lemma fo_guard_none src : from_ordinal src None None None = Err ValueErr.
+Proof. reflexivity. Qed.
+
+Lemma fo_empty_source src nic st rst :
+  os_multiplicity src = [] -> from_ordinal src nic st rst = Err ValueErr.
+Proof.
+  intros H. unfold from_ordinal. rewrite H. simpl.
+  destruct (count_none nic st rst <? 2)%nat; [reflexivity|].
+  destruct (count_none nic st rst =? 3)%nat; reflexivity.
+Qed.
+
+Lemma fo_total src nic st rst :
+  count_none nic st rst = 2%nat -> os_multiplicity src <> [] ->
+  exists ci, from_ordinal src nic st rst = Ok ci.
+Proof.
+  intros Hc Hs. unfold from_ordinal. rewrite Hc. simpl.
+  unfold fo_raw. destruct (os_multiplicity src) as [|[o m] l]; [congruence|]. simpl.
+  destruct (order_pref nic rst st o) as [p st']. simpl.
+  match goal with |- context [acc_loop ?a ?b ?c] => destruct (acc_loop a b c) end.
+  eexists. reflexivity.
+Qed.
+
+(* ---- the size rule pins the ballot down: at most one ballot satisfies it ---- *)
+Lemma app_eq_app_split {T} (a1 b1 a2 b2 : list T) :
+  a1 ++ b1 = a2 ++ b2 ->
+  exists d, (a2 = a1 ++ d /\ b1 = d ++ b2) \/ (a1 = a2 ++ d /\ b2 = d ++ b1).
+Proof.
+  revert a2. induction a1 as [|x a1 IH]; intros a2 H; simpl in *.
+  - exists a2. left. split; auto.
+  - destruct a2 as [|y a2]; simpl in *.
+    + exists (x :: a1). right. split; auto.
+    + inversion H; subst. destruct (IH _ H2) as (d & [[E1 E2]|[E1 E2]]); exists d; [left|right];
+        split; congruence.
+Qed.
+
+Lemma shortest_reaching_unique t o g1 r1 g2 r2 :
+  shortest_reaching t o g1 r1 -> shortest_reaching t o g2 r2 -> g1 = g2 /\ r1 = r2.
+Proof.
+  intros (Ho1 & Hs1 & He1) (Ho2 & Hs2 & He2).
+  assert (H : g1 ++ r1 = g2 ++ r2) by congruence.
+  destruct (app_eq_app_split _ _ _ _ H) as (d & [[E1 E2]|[E1 E2]]); destruct d as [|x d].
+  - rewrite app_nil_r in E1. simpl in E2. split; congruence.
+  - exfalso. specialize (Hs2 _ _ _ E1). destruct He1 as [He1|He1]; [lia | subst r1; discriminate].
+  - rewrite app_nil_r in E1. simpl in E2. split; congruence.
+  - exfalso. specialize (Hs1 _ _ _ E1). destruct He2 as [He2|He2]; [lia | subst r2; discriminate].
+Qed.
+
+Lemma size_rule_unique ts : forall o r1 r2, size_rule ts o r1 -> size_rule ts o r2 -> r1 = r2.
+Proof.
+  induction ts as [|t ts IH]; intros o r1 r2 H1 H2; cbn [size_rule] in *.
+  - destruct o; congruence.
+  - destruct H1 as (g1 & q1 & S1 & H1). destruct H2 as (g2 & q2 & S2 & H2).
+    destruct (shortest_reaching_unique _ _ _ _ _ _ S1 S2) as [Eg Eq]. subst g2 q2.
+    destruct q1 as [|c q1]; [congruence|].
+    destruct H1 as (r1' & E1 & H1). destruct H2 as (r2' & E2 & H2).
+    rewrite E1, E2. f_equal. eapply IH; eassumption.
+Qed.
+
+(* with positive truncators and non-empty classes no category produced by the size rule is empty
+   (unless the order itself is empty) *)
+Lemma size_rule_nonempty ts : forall o r,
+  Forall (fun t => 0 < t) ts -> Forall (fun c => c <> []) o -> o <> [] ->
+  size_rule ts o r -> Forall (fun cat => cat <> []) r.
+Proof.
+  induction ts as [|t ts IH]; intros o r Hpos Hne Ho H; cbn [size_rule] in H.
+  - destruct o as [|c o]; [congruence|]. subst r. constructor; [|constructor].
+    inversion Hne; subst. simpl. intros E. apply app_eq_nil in E. tauto.
+  - destruct H as (g & rest & (Hog & Hs & He) & H).
+    inversion Hpos as [|? ? Ht Hpos']; subst.
+    assert (Hg : concat g <> []).
+    { destruct g as [|c g].
+      - simpl in *. destruct He as [He|He]; [unfold lenN in He; simpl in He; lia | congruence].
+      - apply Forall_app in Hne. destruct Hne as [Hne _]. inversion Hne; subst.
+        simpl. intros E. apply app_eq_nil in E. tauto. }
+    destruct rest as [|c rest].
+    + subst r. constructor; [assumption | constructor].
+    + destruct H as (r' & Hr & H). subst r. constructor; [assumption|].
+      apply Forall_app in Hne. destruct Hne as [_ Hne].
+      eapply IH; eauto. discriminate.
+Qed.
+
+(* ---- refutations ---- *)
+(* an EMPTY truncator list passes the guards and yields ballots with zero categories: the ranked
+   alternatives are lost (no partition), although the docstring promises "an additional" category *)
+Lemma fo_partition_empty_truncators_refuted :
+  exists src ci,
+    os_multiplicity src = [([[1]; [2]], 3)] /\
+    from_ordinal src None (Some []) None = Ok ci /\
+    ci_preferences ci = [[]] /\ ci_num_categories ci = 0 /\
+    ~ Partition [[1]; [2]] [].
+Proof.
+  exists {| os_num_alternatives := 2; os_alternatives_name := []; os_multiplicity := [([[1]; [2]], 3)] |}.
+  eexists. splits; try reflexivity.
+  intros (groups & H1 & H2). symmetry in H2. apply map_eq_nil in H2. subst groups. discriminate.
+Qed.
+
+(* the literal docstring sentence "each category will contain at least the truncation point number
+   of alternatives" is false for the last category of an order that runs out *)
+Lemma fo_size_at_least_refuted :
+  exists ts o, Forall (fun t => 0 < t) ts /\ wf_order o /\
+    exists j cat t, nth_error (size_pref ts o) j = Some cat /\ nth_error ts j = Some t /\ lenN cat < t.
+Proof.
+  exists [3], [[1]; [2]]. splits.
+  - repeat constructor.
+  - split.
+    + repeat constructor; simpl; intuition discriminate.
+    + repeat constructor; discriminate.
+  - exists 0%nat, [1; 2], 3. splits; reflexivity.
+Qed.
+
+Lemma Forall2_imp {T U} (P Q : T -> U -> Prop) l1 l2 :
+  (forall x y, P x y -> Q x y) -> Forall2 P l1 l2 -> Forall2 Q l1 l2.
+Proof. intros H F. induction F; constructor; auto. Qed.
+
+(* ---- the three modes, separately ---- *)
+Definition padded_to (k : N) (r b : ballot) : Prop := b = r ++ repeat [] (N.to_nat k - length r).
+
+Lemma fo_size_rule_lemma src ts ci :
+  ts <> [] -> from_ordinal src None (Some ts) None = Ok ci ->
+  Forall2 (fun om b => exists r, size_rule ts (fst om) r /\ padded_to (ci_num_categories ci) r b)
+          (os_multiplicity src) (fo_ballots None (Some ts) None (os_multiplicity src)).
+Proof.
+  intros Hts H. apply fo_rules_lemma in H. cbv zeta in H. destruct ts as [|t ts]; [congruence|].
+  eapply Forall2_imp; [|exact H]. intros om b (r & H1 & H2). exists r. split; assumption.
+Qed.
+
+Lemma fo_relative_rule_lemma src tabs ci :
+  tabs <> [] -> from_ordinal src None None (Some tabs) = Ok ci ->
+  Forall2 (fun om b => exists r, size_rule (rel_sizes tabs (fst om)) (fst om) r /\
+                                 padded_to (ci_num_categories ci) r b)
+          (os_multiplicity src) (fo_ballots None None (Some tabs) (os_multiplicity src)).
+Proof.
+  intros Hts H. apply fo_rules_lemma in H. cbv zeta in H. destruct tabs as [|t ts]; [congruence|].
+  eapply Forall2_imp; [|exact H]. intros om b (r & H1 & H2). exists r. split; assumption.
+Qed.
+
+Lemma fo_classes_rule_lemma src ns ci :
+  ns <> [] -> from_ordinal src (Some ns) None None = Ok ci ->
+  Forall2 (fun om b => exists r, classes_rule ns (fst om) r /\ padded_to (ci_num_categories ci) r b)
+          (os_multiplicity src) (fo_ballots (Some ns) None None (os_multiplicity src)).
+Proof.
+  intros Hts H. apply fo_rules_lemma in H. cbv zeta in H. destruct ns as [|t ts]; [congruence|].
+  eapply Forall2_imp; [|exact H]. intros om b (r & H1 & H2). exists r. split; assumption.
+Qed.
